@@ -145,7 +145,99 @@ COMMON.update({
     "core::str::<impl str>::chars": absint._ident,
 })
 
+def _fmt_arg(kind):
+    def model(it, p, fid, fn, t, args):
+        e = sexpr(it, p, args[0])
+        if e is None:
+            v = args[0]
+            n = 0
+            while isinstance(v, Ptr) and n < 6:
+                v = it.deref(p, v)
+                n += 1
+            e = ("unknown", repr(v)[:40])
+        return SStr(("debug", e) if kind == "debug" else e)
+    return model
+
+
+def _fmt_arguments_new(it, p, fid, fn, t, args):
+    """core::fmt::Arguments::new(template, &[Argument; N]) -> symbolic concatenation"""
+    tv = args[0]
+    n = 0
+    while isinstance(tv, Ptr) and n < 6:
+        tv = it.deref(p, tv)
+        n += 1
+    txt = None
+    if isinstance(tv, Opaque) and str(tv.tag).startswith("const:"):
+        txt = tv.tag[len("const:"):]
+    pieces = rules_fmt(txt) if txt else None
+    av = args[1] if len(args) > 1 else None
+    n = 0
+    while isinstance(av, Ptr) and n < 6:
+        av = it.deref(p, av)
+        n += 1
+    if pieces is None or not isinstance(av, Tup):
+        return NotImplemented
+    vals = list(av.fields)
+    parts = []
+    k = 0
+    for pc in pieces:
+        if pc == "{}":
+            if k >= len(vals):
+                return NotImplemented
+            e = sexpr(it, p, vals[k])
+            parts.append(e if e is not None else ("unknown", repr(vals[k])[:40]))
+            k += 1
+        else:
+            parts.append(("lit", pc))
+    return SStr(absint.scat(*parts) if parts else ("lit", ""))
+
+
+def rules_fmt(txt):
+    import rules
+    return rules.fmt_template_pieces(txt)
+
+
+def _fmt_format(it, p, fid, fn, t, args):
+    e = sexpr(it, p, args[0])
+    return SStr(e) if e is not None else NotImplemented
+
+
+def _slice_iter(it, p, fid, fn, t, args):
+    return Opaque("SLICEITER")
+
+
+def _iter_map(it, p, fid, fn, t, args):
+    a = args[0]
+    if isinstance(args[1], absint.Closure):
+        st = dict(p.frames.get(-1, {}))
+        reg = dict(st.get("maps", {}))
+        k = len(reg)
+        reg[k] = args[1]
+        st["maps"] = reg
+        p.frames[-1] = st
+        return Opaque("MAPITER:%d" % k)
+    return NotImplemented
+
+
+def _iter_collect(it, p, fid, fn, t, args):
+    a = args[0]
+    if isinstance(a, Opaque) and str(a.tag).startswith("MAPITER:"):
+        cl = p.frames.get(-1, {}).get("maps", {}).get(int(a.tag.split(":")[1]))
+        g = it.lookup_fn(cl.defn) if cl is not None else None
+        if g is not None:
+            # one symbolic element: collect::<String>() of a single mapped element is that element's image
+            return ("enter", g, [cl, SStr(("arg", "ARG"))], lambda v: v)
+    return NotImplemented
+
+
 WRITER_MODELS = {
+    "core::fmt::rt::Argument::new_display": _fmt_arg("display"),
+    "core::fmt::rt::Argument::new_debug": _fmt_arg("debug"),
+    "core::fmt::Arguments::new": _fmt_arguments_new,
+    "alloc::fmt::format": _fmt_format,
+    "core::slice::<impl [T]>::iter": _slice_iter,
+    "core::iter::traits::iterator::Iterator::map": _iter_map,
+    "core::iter::traits::iterator::Iterator::collect": _iter_collect,
     "core::str::<impl str>::bytes": _arg_iter("bytes"),
     "core::str::<impl str>::chars": _arg_iter("chars"),
     "core::iter::traits::iterator::Iterator::any": _iter_quant("any"),
@@ -178,9 +270,23 @@ def per_arg_expr(row):
     """From the appended sequence of a path that processed exactly one ARG:
     the concatenation of everything appended that precedes/contains ARG."""
     es = row["appended"]
-    if not any(mentions_arg(e) for e in es):
+    if any(mentions_arg(e) for e in es):
+        return absint.scat(*es) if es else ("lit", "")
+    # no accumulator: the record is built by one format!() -- take the returned expression between the id and the terminator
+    v = row.get("value")
+    e = v.e if isinstance(v, SStr) else None
+    if e is None or not mentions_arg(e):
         return None
-    return absint.scat(*es) if es else ("lit", "")
+    parts = list(e[1:]) if e[0] == "cat" else [e]
+    while parts and parts[0][0] == "unknown":
+        parts.pop(0)
+    if parts and parts[-1][0] == "lit" and parts[-1][1] in ("\x00", "\n"):
+        parts.pop()
+    elif parts and parts[-1][0] == "lit" and parts[-1][1].endswith(("\x00", "\n")):
+        parts[-1] = ("lit", parts[-1][1][:-1])
+    if not parts or not any(mentions_arg(x) for x in parts):
+        return None
+    return absint.scat(*parts)
 
 
 def mentions_arg(e):
@@ -189,6 +295,8 @@ def mentions_arg(e):
     if e[0] == "cat":
         return any(mentions_arg(x) for x in e[1:])
     if e[0] == "repl":
+        return mentions_arg(e[1])
+    if e[0] == "debug":
         return mentions_arg(e[1])
     return False
 
@@ -203,7 +311,37 @@ def apply_expr(e, s):
         return "".join(apply_expr(x, s) for x in e[1:])
     if e[0] == "repl":
         return apply_expr(e[1], s).replace(e[2], e[3])
+    if e[0] == "debug":
+        return rust_str_debug(apply_expr(e[1], s))
     raise ShapeChanged("unknown expression %r" % (e,))
+
+
+def rust_str_debug(s):
+    """`format!("{:?}", s)` for a str: quotes plus char::escape_debug (grapheme-extending and non-printable
+    characters become \\u{..})."""
+    import unicodedata
+    out = ['"']
+    for ch in s:
+        if ch == "\t":
+            out.append("\\t")
+        elif ch == "\r":
+            out.append("\\r")
+        elif ch == "\n":
+            out.append("\\n")
+        elif ch == "\\":
+            out.append("\\\\")
+        elif ch == '"':
+            out.append('\\"')
+        elif ch == "\0":
+            out.append("\\0")
+        else:
+            cat = unicodedata.category(ch)
+            if cat in ("Cc", "Cf", "Cs", "Co", "Cn", "Zl", "Zp", "Mn", "Me") or (cat == "Zs" and ch != " "):
+                out.append("\\u{%x}" % ord(ch))
+            else:
+                out.append(ch)
+    out.append('"')
+    return "".join(out)
 
 
 def expr_str(e):
@@ -215,6 +353,8 @@ def expr_str(e):
         return " + ".join(expr_str(x) for x in e[1:])
     if e[0] == "repl":
         return "%s.replace(%r, %r)" % (expr_str(e[1]), e[2], e[3])
+    if e[0] == "debug":
+        return "format!(\"{:?}\", %s)" % expr_str(e[1])
     return repr(e)
 
 
